@@ -26,7 +26,7 @@ use std::fmt::Debug;
 use std::net::{Ipv4Addr, Ipv6Addr};
 use verif_harness::*;
 
-pub struct Ctx { pub oracle_only: bool, pub cases: u64, pub fails: u64, pub tail: u64 }
+pub struct Ctx { pub oracle_only: bool, pub cases: u64, pub fails: u64, pub tail: u64, pub dec_cases: u64, pub mrng: Rng }
 
 /// encode / scan / decode one message; `back` converts the decoded message to the IR.
 pub fn run_one<M, I, B>(cx: &mut Ctx, stack: &str, proto: &str, variant: &str, ir: &I, msg: &M, back: B, coq: Option<String>)
@@ -56,6 +56,62 @@ where M: Encode<()> + for<'b> Decode<'b, ()> + Debug, I: PartialEq + Debug, B: F
     if let (false, Some(c)) = (cx.oracle_only, coq) {
         cx.cases += 1;
         emit_case(&format!("{}-{}-{}", stack, proto, variant), &c.replace("@BYTES@", &coq_bytes(&bytes)));
+        // decoder differential on mutants of this encoding
+        if let Some((k, framing_only)) = dec_kind(stack, proto, variant) {
+            if bytes.len() <= 600 {
+                for _ in 0..2 {
+                    let (how, mutant) = mutate(&mut cx.mrng, &bytes, framing_only);
+                    run_dec::<M>(cx, k, &format!("decode-{}-{}", proto, how), &mutant);
+                }
+            }
+        }
+    }
+}
+
+/// index of the protocol in Run.v's [dec_run]; bool = the message carries an opaque item that the
+/// implementation reads with Decoder::skip (lax on malformed items, e.g. it accepts a lone break byte,
+/// which the strict item decoder of the model rejects): such encodings are only truncated
+fn dec_kind(stack: &str, proto: &str, variant: &str) -> Option<(u32, bool)> {
+    let opaque = matches!((proto, variant), ("localstate", "Query" | "Result") | ("leiosnotify", "BlockAnnouncement" | "Votes")
+        | ("leiosfetch", "Block" | "BlockTxs") | ("chainsync-skipped", "RollForward"));
+    let k = match proto {
+        "keepalive" => 0, "blockfetch" => 1, "chainsync-header" => 2, "chainsync-block" => 3, "chainsync-skipped" => 4, "txsubmission" => 5,
+        "peersharing" => if stack == "n1" { 6 } else { 7 }, "handshake-n2n" => 8, "handshake-n2c" => 9, "localstate" => 10, "txmonitor" => 11,
+        "leiosnotify" => 12, "leiosfetch" => 13, _ => return None,
+    };
+    Some((k, opaque))
+}
+
+const HEADS: &[u8] = &[0x00, 0x17, 0x18, 0x19, 0x1a, 0x1b, 0x1c, 0x1f, 0x20, 0x38, 0x39, 0x3a, 0x3b, 0x40, 0x58, 0x5f, 0x60, 0x78, 0x7f, 0x80, 0x81, 0x82, 0x83, 0x84, 0x98,
+    0x9f, 0xa0, 0xa1, 0xb8, 0xbf, 0xc0, 0xd8, 0xf4, 0xf5, 0xf6, 0xf7, 0xf8, 0xf9, 0xfb, 0xff];
+fn mutate(r: &mut Rng, b: &[u8], truncate_only: bool) -> (&'static str, Vec<u8>) {
+    let lim = b.len();
+    let mut v = b.to_vec();
+    match if truncate_only { 0 } else { r.below(7) } {
+        0 => { let n = r.below(b.len() as u64) as usize; v.truncate(n); ("truncate", v) }
+        1 if lim > 0 => { let i = r.below(lim as u64) as usize; v[i] = *r.pick(HEADS); ("head-byte", v) }
+        2 if lim > 0 => { let i = r.below(lim as u64) as usize; v[i] = v[i].wrapping_add(if r.bool() { 1 } else { 0xff }); ("plus-minus-one", v) }
+        3 if lim > 0 => { let i = r.below(lim as u64) as usize; v[i] ^= 1 << r.below(8); ("bit-flip", v) }
+        4 if lim > 0 => { let i = r.below(lim as u64) as usize; v.remove(i); ("delete", v) }
+        5 => { let i = r.below(lim as u64 + 1) as usize; v.insert(i, *r.pick(HEADS)); ("insert", v) }
+        _ => { for _ in 0..r.range(1, 3) { v.push(r.byte()) } ("append", v) }
+    }
+}
+
+/// arbitrary bytes through the REAL decoder; canonical result = re-encoding + bytes consumed
+fn run_dec<M>(cx: &mut Ctx, k: u32, tag: &str, bs: &[u8]) where M: Encode<()> + for<'b> Decode<'b, ()> + Debug {
+    let res = guard(|| {
+        let mut d = Decoder::new(bs);
+        match d.decode::<M>() {
+            Ok(m) => { let re = minicbor::to_vec(&m).map_err(|e| e.to_string())?; Ok(format!("(ROk {} {})", coq_bytes(&re), d.position())) }
+            Err(e) if e.is_end_of_input() => Ok("REoi".to_string()),
+            Err(_) => Ok("RErr".to_string()),
+        }
+    });
+    match res {
+        Out::Ok(t) => { cx.cases += 1; cx.dec_cases += 1; emit_case(tag, &format!("(CDec {} {} {})", k, coq_bytes(bs), t)); }
+        Out::Err(_) => emit_stat("decoded_but_not_reencodable", 1),
+        Out::Panic(_) => emit_stat("decode_panics", 1),
     }
 }
 
@@ -331,7 +387,7 @@ fn parse_n2c(s: &str) -> Option<N2c> {
 fn main() {
     let args = args();
     let mut r = Rng::new(args.seed);
-    let mut cx = Ctx { oracle_only: args.oracle_only, cases: 0, fails: 0, tail: 0 };
+    let mut cx = Ctx { oracle_only: args.oracle_only, cases: 0, fails: 0, tail: 0, dec_cases: 0, mrng: Rng::new(args.seed ^ 0x5eed_dec0de) };
     let cx = &mut cx;
 
     // the refutation witness of the tree before the repair, always first (corpus/C22)
@@ -415,6 +471,7 @@ fn main() {
     }
     tail::reject_samples(cx);
     emit_stat("tail_messages", cx.tail);
+    emit_stat("decoder_differential_cases", cx.dec_cases);
     emit_stat("cases", cx.cases);
     emit_stat("oracle_fails", cx.fails);
 }
